@@ -352,7 +352,8 @@ def svdtf(source, target):
     U, S, Vh = torch.linalg.svd(M)
     R = U @ Vh
     mask = (R.det() + 1).abs() < 1e-6
-    R[mask] = - R[mask]
+    U[mask, :, -1] = - U[mask, :, -1]
+    R = U @ Vh
     t = ctntarget.mT - R @ ctnsource.mT
     T = torch.cat((R, t), dim=-1)
     return mat2SE3(T, check=False)
